@@ -57,7 +57,7 @@ static size_t run_op(ZSTD_CCtx* c, const op_t* o, u8* dst, size_t* srcLen) {
 
 static void body_compress(void) {
     int len = 1 + vx_choose(g_depth); op_t ops[6];
-    for (int i = 0; i < len; i++) { ops[i].shape = vx_choose(7); ops[i].size = vx_deviate(3); if (i < len - 1 && ops[i].size == 0) ops[i].size = 2; if (i < len - 1 && !vx_thorough) { static const int FS[] = {2, 5, 8}; ops[i].strat = FS[vx_choose(3)]; } else ops[i].strat = 1 + vx_choose(9); ops[i].api = vx_deviate(5); }      /* quick tier: the frames before the last one from three strategies (hash, chain, tree) */
+    for (int i = 0; i < len; i++) { ops[i].shape = vx_choose(7); ops[i].size = vx_deviate(3); if (i < len - 1 && ops[i].size == 0) ops[i].size = 2; ops[i].strat = 1 + vx_choose(9); ops[i].api = vx_deviate(5); }
     char hs[200] = ""; size_t ho = 0; for (int i = 0; i < len; i++) ho += snprintf(hs + ho, sizeof hs - ho, "(s%d,%zuK,strat%d,api%d) ", ops[i].shape, SIZES[ops[i].size] >> 10, ops[i].strat, ops[i].api);
     vx_label("%s", hs);
     ZSTD_CCtx* c = ZSTD_createCCtx(); long corrections = 0;
